@@ -129,6 +129,13 @@ Dot(L) ==
   UNION {{[fam |-> "dot", ins |-> <<i1, i2>>, outs |-> <<[k \in DOMAIN p |-> AxU(p[k])]>>, L |-> L]
             : p \in Perms(UnbrNames(i1) \cup UnbrNames(i2))}
          : i1 \in DotIn, i2 \in {t \in DotIn : TRUE}}
+(* three operands (a chain of two contractions, optional batch axis on the outer operands) *)
+Dot3(L) ==
+  UNION {UNION {UNION {
+     {[fam |-> "dot", ins |-> <<x \o <<AxB(p)>>, <<AxB(p), AxB(q)>>, <<AxB(q)>> \o y>>, outs |-> <<[k \in DOMAIN o |-> AxU(o[k])]>>, L |-> L]
+        : o \in Perms(NameSet(x) \cup NameSet(y))}
+     : x \in {<<>>} \cup {<<AxU(n)>> : n \in Names \ {p, q}}, y \in {<<>>} \cup {<<AxU(n)>> : n \in (Names \cup {"d"}) \ {p, q}}}
+     : q \in (Names \cup {"d"}) \ {p}} : p \in Names}
 DotValid(c) ==
   LET b1 == Range(BrNamesOf(c.ins[1])) b2 == Range(BrNamesOf(c.ins[2])) IN
   /\ b1 = b2 /\ b1 # {}
@@ -145,7 +152,9 @@ GetAt(L) ==
       [fam |-> "get_at", ins |-> <<tg, <<Nb(Len(BrNamesOf(tg)))>> \o cl>>, outs |-> <<[k \in DOMAIN p |-> AxU(p[k])]>>, L |-> L]}
      : p \in Perms(UnbrNames(tg) \cup NameSet(cl))} : cl \in CoordLoop} : tg \in TargetIns}
 
-UpdLoop(tg, cl) == {t \in SeqsUpTo({AxU(n) : n \in UnbrNames(tg) \cup NameSet(cl)}, 3) : NoRepeat(ExprNames(t))}
+(* the update tensor may lack axes of the target / coordinates (its values are repeated along them) and may have an axis
+   of its own ("c": every index of it addresses the same element - add/subtract accumulate, set keeps one competitor) *)
+UpdLoop(tg, cl) == {t \in SeqsUpTo({AxU(n) : n \in UnbrNames(tg) \cup NameSet(cl) \cup {"c"}}, 3) : NoRepeat(ExprNames(t))}
 UpdateAt(L) ==
   UNION {UNION {UNION {
      {[fam |-> "update_at", ins |-> <<tg, cl \o <<Nb(Len(BrNamesOf(tg)))>>, up>>, outs |-> <<tg>>, L |-> L],
@@ -161,7 +170,7 @@ CaseSet(L) ==
     [] Family = "reduce"      -> Reduce(L)
     [] Family = "preserve"    -> Preserve(L)
     [] Family = "argfind"     -> Argfind(L)
-    [] Family = "dot"         -> {c \in Dot(L) : DotValid(c)}
+    [] Family = "dot"         -> {c \in Dot(L) : DotValid(c)} \cup Dot3(L)
     [] Family = "get_at"      -> GetAt(L)
     [] OTHER                  -> UpdateAt(L)
 
